@@ -51,7 +51,27 @@ func baseChain(v ssa.Value, depth int) (kind string, path string) {
 			return "loaded(" + k + p + ")", ""
 		}
 	case *ssa.Call:
-		n, _ := calleeName(x.Common())
+		n, callee := calleeName(x.Common())
+		if callee == nil || callee.Blocks == nil || callee.Pkg == nil || !strings.HasPrefix(callee.Pkg.Pkg.Path(), modPath) {
+			// what a callee outside the module hands back may be (part of) what it was given: the certificates of the
+			// configured store, the key of the configured key store, a sub-slice of its argument — unless its contract
+			// says the result is a new object
+			if ct := lookupContract(n); ct == nil || !ct.Fresh {
+				args := x.Common().Args
+				if x.Common().IsInvoke() {
+					args = append([]ssa.Value{x.Common().Value}, args...)
+				}
+				for _, a := range args {
+					if !mayPointTo(a.Type()) {
+						continue
+					}
+					k, p := baseChain(a, depth+1)
+					if sharedBase(k, p) {
+						return "from(" + k + p + " via " + shortName(n) + ")", ""
+					}
+				}
+			}
+		}
 		return "call:" + shortName(n), ""
 	case *ssa.Extract:
 		return baseChain(x.Tuple, depth+1)
@@ -76,6 +96,14 @@ func baseChain(v ssa.Value, depth int) (kind string, path string) {
 	return "unknown:" + fmt.Sprintf("%T", v), ""
 }
 
+// sharedBase: memory reachable from the provider (beyond the provider value itself) or from a package variable.
+func sharedBase(kind, path string) bool {
+	if strings.HasPrefix(kind, "global:") || strings.Contains(kind, "(global:") {
+		return true
+	}
+	return isProviderRooted(kind) && (path != "" || strings.Contains(kind, "loaded(") || strings.Contains(kind, "from("))
+}
+
 func isProviderRooted(kind string) bool {
 	return strings.Contains(kind, "*saml2.SAMLServiceProvider")
 }
@@ -85,10 +113,24 @@ func ruleC17(c *Ctx) {
 	c.rule("C17-R2", "lockset: in SigningContext every load of sp.signingContext holds signingContextMu (R or W), every store to it or mutation of the context holds it in W mode, each acquire is released on all paths, no double acquire; the two fields are touched nowhere else")
 	c.rule("C17-R3", "freshness: nothing created during an operation is stored into the provider or a global (follows from R1); results returned by the validators are fresh allocations")
 	c.rule("C17-R4", "no by-value copy of SAMLServiceProvider (it embeds a mutex) in library scope")
+	spT := providerEffectScan(c)
+	if spT == nil {
+		return
+	}
+
+	inputsUnmodified(c, "C17-R5", spT)
+	providerUnmodifiedPaths(c, "C17-R6", spT)
+	// package-level variables, who-may-touch, lockset, by-value copies
+	restOfC17(c, spT)
+}
+
+// providerEffectScan (C17-R1; filtered views of it serve C02-R5, C15-R6, C16-R5): every store, map update, append
+// and mutating or unmodelled external call in the cone of the public operations, classified by the memory it reaches.
+func providerEffectScan(c *Ctx) *types.Named {
 	spT := c.P.Named("SAMLServiceProvider")
 	if spT == nil {
 		c.bad("anchor", "SAMLServiceProvider", "UNRESOLVED-ANCHOR", "-", "type no longer resolves")
-		return
+		return nil
 	}
 	// operation roots
 	var roots []*ssa.Function
@@ -151,6 +193,14 @@ func ruleC17(c *Ctx) {
 					}
 				case ssa.CallInstruction:
 					name, callee := calleeName(x.Common())
+					if name == "builtin:append" && len(x.Common().Args) > 0 {
+						// append writes into the spare capacity of its first argument
+						kind, path := baseChain(x.Common().Args[0], 0)
+						if sharedBase(kind, path) {
+							c.bad("C17-R1", fname, "append onto shared storage "+describeBase(kind, path), c.P.InstrPos(x), "a public operation appends onto a slice that belongs to the provider's configuration (or a package variable): the elements land in storage other calls and the application see")
+						}
+						continue
+					}
 					if name == "" || strings.HasPrefix(name, "builtin:") || (callee != nil && c.P.inModule(callee)) {
 						continue
 					}
@@ -170,7 +220,7 @@ func ruleC17(c *Ctx) {
 							continue
 						}
 						kind, path := baseChain(a, 0)
-						if !(isProviderRooted(kind) && (strings.HasPrefix(kind, "loaded(") || path != "")) && !strings.HasPrefix(kind, "global:") {
+						if !sharedBase(kind, path) {
 							continue
 						}
 						writes := false
@@ -198,9 +248,40 @@ func ruleC17(c *Ctx) {
 	c.floor("C17-R1/stores-scanned", 150)
 	c.count("C17-R1/provider-effects", nProvider)
 	c.floor("C17-R1/provider-effects", 1) // at least the cache store sp.signingContext = ctx; how many further effects there are depends on how SigningContext is split up
+	return spT
+}
 
-	inputsUnmodified(c, "C17-R5", spT)
+// configUntouched: the filtered view of the effect scan for one group of configuration fields: no library function
+// writes them (or memory obtained through them). The builders / validators read these fields on every call; a helper
+// elsewhere that "fills in a default" or filters a configured list in place changes what later calls see.
+func configUntouched(c *Ctx, rule, what string, fields []string) {
+	sub := NewCtx(c.P, c.Prop, c.Tier)
+	if providerEffectScan(sub) == nil {
+		c.bad(rule, "SAMLServiceProvider", "UNRESOLVED-ANCHOR", "-", "type no longer resolves")
+		return
+	}
+	n := 0
+	for _, o := range sub.Obs {
+		if o.Rule != "C17-R1" || o.Status == "ok" {
+			continue
+		}
+		hit := false
+		for _, f := range fields {
+			if strings.Contains(o.Key, "."+f) || strings.Contains(o.Detail, "."+f) {
+				hit = true
+			}
+		}
+		if hit {
+			n++
+			c.ob(rule, o.Fn, strings.TrimPrefix(o.Key, o.Rule+" | "+o.Fn+" | "), o.Pos, o.Status, o.Detail, true)
+		}
+	}
+	if n == 0 {
+		c.ok(rule, "library", "no library function writes "+what, "-", fmt.Sprintf("effect scan over the cone of all public operations: no store, append, map update or mutating call reaches %v", fields))
+	}
+}
 
+func restOfC17(c *Ctx, spT *types.Named) {
 	// package-level variables
 	nG := 0
 	for _, pk := range c.P.Lib {
@@ -550,4 +631,180 @@ func derefT(t types.Type) types.Type {
 		return p.Elem()
 	}
 	return t
+}
+
+// providerUnmodifiedPaths (C17-R6): the value-flow counterpart of R1 for memory that reaches a mutating call through
+// locals and helper results — the configured private key travelling through a local tls.Certificate, a certificate
+// slice handed out by the configured store. On every path of every exported provider method: no store, map update,
+// mutating or unmodelled external call on a value derived from the provider (field loads, elements, results of
+// non-fresh external calls on such values), SigningContext's cached context excepted (R2).
+func providerUnmodifiedPaths(c *Ctx, rule string, spT *types.Named) {
+	c.rule(rule, "configuration objects are not modified (value flow): on every path of every exported provider method no store, map update, mutating or unmodelled external call receives memory derived from the provider — including what configured key / certificate stores hand out and what travels through locals")
+	config := map[string]bool{"SetSPKeyStore": true, "SetSPSigningKeyStore": true, "SigningContext": true}
+	var roots []*ssa.Function
+	ms := c.P.SSA.MethodSets.MethodSet(types.NewPointer(spT))
+	for i := 0; i < ms.Len(); i++ {
+		f := c.P.SSA.MethodValue(ms.At(i))
+		if f == nil || f.Blocks == nil || !f.Object().Exported() || config[f.Name()] {
+			continue
+		}
+		roots = append(roots, f)
+	}
+	// the heavy inbound helpers are analysed as kernels of their own (same split as C09), everything else inline
+	inline := []string{"*", "-(*SAMLServiceProvider).SigningContext"}
+	for _, n := range sortedKeys(c09SubKernels) {
+		inline = append(inline, "-"+n)
+		if fn := c.P.Fn(n); fn != nil && fn.Blocks != nil && len(fn.Params) > 0 && types.Identical(derefT(fn.Params[0].Type()), spT) {
+			dup := false
+			for _, r := range roots {
+				if r == fn {
+					dup = true
+				}
+			}
+			if !dup {
+				roots = append(roots, fn)
+			}
+		}
+	}
+	sort.Slice(roots, func(i, j int) bool { return roots[i].String() < roots[j].String() })
+	nRoots, nCalls, nEff := 0, 0, 0
+	seenSite := map[string]bool{}
+	for _, f := range roots {
+		res := c.kernelFn(f, inline...)
+		if res == nil {
+			continue
+		}
+		nRoots++
+		var derived func(v Val, d int) bool
+		derived = func(v Val, d int) bool {
+			if v == nil || d > 14 {
+				return false
+			}
+			switch x := v.(type) {
+			case *ParamV:
+				return x.Fn == f && x.Idx == 0
+			case *LoadV:
+				return derived(x.Addr, d+1)
+			case *FieldAddrV:
+				return derived(x.X, d+1)
+			case *IndexAddrV:
+				return derived(x.X, d+1)
+			case *FieldV:
+				return mayPointTo(x.Type()) && derived(x.X, d+1)
+			case *IndexV:
+				return mayPointTo(x.Type()) && derived(x.X, d+1)
+			case *SliceV:
+				return derived(x.X, d+1)
+			case *MakeIfaceV:
+				return derived(x.X, d+1)
+			case *ConvV:
+				return mayPointTo(x.Type()) && derived(x.X, d+1)
+			case *TypeAssertV:
+				return derived(x.X, d+1)
+			case *IterElemV:
+				return derived(x.Root, d+1)
+			case *MapElemV:
+				return mayPointTo(x.Type()) && derived(x.M.Coll, d+1)
+			case *AppendV:
+				return derived(x.S, d+1)
+			case *CallV:
+				if !mayPointTo(x.Type()) {
+					return false
+				}
+				if x.Fn != nil && c.P.inModule(x.Fn) {
+					return false // summarised module callee: its own paths are analysed where it is a root or inlined
+				}
+				if ct := lookupContract(x.Callee); ct != nil && ct.Fresh {
+					return false
+				}
+				for _, a := range x.Args {
+					if a != nil && mayPointTo(a.Type()) && derivedDeep(derived, a, d+1) {
+						return true
+					}
+				}
+			}
+			return false
+		}
+		fname := shortFn(f)
+		report := func(e *Event, what, why string) {
+			k := fname + "|" + what + "|" + c.P.InstrPos(e.Instr)
+			if seenSite[k] {
+				return
+			}
+			seenSite[k] = true
+			nEff++
+			c.bad(rule, fname, what, c.P.InstrPos(e.Instr), why)
+		}
+		for _, t := range res.Terms {
+			for _, e := range t.St.events {
+				switch e.Kind {
+				case EvStore:
+					if _, viaLocal := rootOf(e.Addr).(*AllocV); viaLocal {
+						continue
+					}
+					if derived(e.Addr, 0) {
+						report(e, "store "+apLval(e.Addr), "a public operation writes provider-reachable memory ("+apLval(e.Addr)+")")
+					}
+				case EvMapUpdate:
+					if derived(e.X, 0) {
+						report(e, "map update "+ap(e.X), "a public operation updates a map reachable from the provider")
+					}
+				case EvCall:
+					if e.CalleeFn != nil && c.P.inModule(e.CalleeFn) {
+						continue
+					}
+					if strings.HasPrefix(e.Callee, "dynamic:") {
+						continue
+					}
+					ct := lookupContract(e.Callee)
+					nCalls++
+					for i, a := range e.Args {
+						if a == nil || !mayPointTo(a.Type()) || !derived(a, 0) {
+							continue
+						}
+						if _, isSP := a.(*ParamV); isSP {
+							continue
+						}
+						switch {
+						case ct == nil:
+							if is, sealed := c.P.moduleIface(a.Type()); i == 0 && is && sealed {
+								continue
+							}
+							report(e, "unmodelled callee "+shortName(e.Callee)+" receives "+ap(a), "an external callee outside the contract table receives memory derived from the provider's configuration ("+ap(a)+") and may modify it")
+						case ct.TreeMutator && i == 0:
+							report(e, "tree mutation "+shortName(e.Callee)+" on "+ap(a), "a public operation restructures a tree reachable from the provider")
+						default:
+							for _, w := range ct.Writes {
+								if w == i {
+									report(e, "mutating call "+shortName(e.Callee)+" on "+ap(a), "a public operation mutates configuration-derived memory through "+shortName(e.Callee))
+								}
+							}
+						}
+					}
+				}
+			}
+		}
+	}
+	c.count(rule+"/provider-methods", nRoots)
+	c.floor(rule+"/provider-methods", 30)
+	c.count(rule+"/external-calls-examined", nCalls)
+	c.floor(rule+"/external-calls-examined", 200)
+	if nEff == 0 {
+		c.ok(rule, "library", "no write to configuration-derived memory", "-", fmt.Sprintf("%d exported provider methods analysed on all paths, %d external call events examined", nRoots, nCalls))
+	}
+}
+
+// derivedDeep: v, or something stored in a local aggregate v denotes, is derived (struct literals assembled in locals).
+func derivedDeep(derived func(Val, int) bool, v Val, d int) bool {
+	if derived(v, d) {
+		return true
+	}
+	if sl, ok := v.(*StructLitV); ok {
+		for _, f := range sl.Fields {
+			if f != nil && mayPointTo(f.Type()) && derived(f, d+1) {
+				return true
+			}
+		}
+	}
+	return false
 }
